@@ -1226,9 +1226,11 @@ func verifyRecoveredOpts(c *core.Ctx, sig string, s *CrashSpec, specPath string,
 			if acked[id] && present != len(ops) {
 				c.Violation(sig+"|batch|acked-flush-lost", fmt.Sprintf("WriteBatch %s was flushed successfully before the crash, %d of %d entries are visible", id, present, len(ops)), w(nil))
 			}
-			if gap && si.rejected[id] == "" {
+			if gap && si.rejected[id] == "" && (len(si.drops) == 0 || acked[id]) {
 				// (a Flush that returned an error - e.g. ErrBlockedWrites during a drop - gives no
-				// ordering guarantee for the internal transactions that were already in flight)
+				// ordering guarantee for the internal transactions that were already in flight; with
+				// drops in the workload the same holds for a Flush that had not returned yet when
+				// the process was killed)
 				c.Violation(sig+"|batch|not-a-prefix", fmt.Sprintf("WriteBatch %s: the visible entries are not a prefix of the entries in call order", id), w(nil))
 			}
 			if acked[id] {
